@@ -670,23 +670,25 @@ impl TimeZoneProvider for FsTzdbProvider {
         identifier: &str,
         iso_datetime: IsoDateTime,
     ) -> TemporalResult<Vec<EpochNanoseconds>> {
-        let epoch_nanos = iso_datetime.as_nanoseconds()?;
+        // NOTE: the wall-clock reading is not an instant: within a day of either end of the range it
+        // can lie outside the instant limits while the instants it denotes are inside them.
+        let epoch_nanos = iso_datetime.as_unchecked_nanoseconds();
         // NOTE: floor, not truncate: a wall-clock reading before 1970 belongs to the second that started before it.
-        let seconds = epoch_nanos.0.div_euclid(1_000_000_000) as i64;
+        let seconds = epoch_nanos.div_euclid(1_000_000_000) as i64;
         let tzif = self.get(identifier)?;
         let local_time_record_result = tzif.v2_estimate_tz_pair(&Seconds(seconds))?;
         let result = match local_time_record_result {
             LocalTimeRecordResult::Empty => Vec::default(),
             LocalTimeRecordResult::Single(r) => {
                 let epoch_ns =
-                    EpochNanoseconds::try_from(epoch_nanos.0 - seconds_to_nanoseconds(r.offset))?;
+                    EpochNanoseconds::try_from(epoch_nanos - seconds_to_nanoseconds(r.offset))?;
                 vec![epoch_ns]
             }
             LocalTimeRecordResult::Ambiguous { std, dst } => {
                 let std_epoch_ns =
-                    EpochNanoseconds::try_from(epoch_nanos.0 - seconds_to_nanoseconds(std.offset))?;
+                    EpochNanoseconds::try_from(epoch_nanos - seconds_to_nanoseconds(std.offset))?;
                 let dst_epoch_ns =
-                    EpochNanoseconds::try_from(epoch_nanos.0 - seconds_to_nanoseconds(dst.offset))?;
+                    EpochNanoseconds::try_from(epoch_nanos - seconds_to_nanoseconds(dst.offset))?;
                 // NOTE: the possible instants are listed in ascending order.
                 let mut possible = vec![std_epoch_ns, dst_epoch_ns];
                 possible.sort();
